@@ -8,7 +8,7 @@ from props import saveapps as SA  # noqa: E402
 
 PROP = "C12"
 ENGINE = "save"
-LEAN_MODULES = ["RtoscModel.Props.C12"]
+LEAN_MODULES = ["RtoscModel.Props.C12", "RtoscModel.Props.C12Text"]
 THEOREMS = [
     "Rtosc.C12.load_save_restores",
     "Rtosc.C12.load_counts_lines",
@@ -25,6 +25,16 @@ THEOREMS = [
     "Rtosc.C12.load_save_restores_scanned_partial",
     "Rtosc.C12.posinf_not_restored_counterexample",
     "Rtosc.C12.hypotheses_cover_shared_dependants_and_preset_arrays",
+    # text level (RtoscModel/Props/C12Text.lean): C10's round trip as the lemma for the file text
+    "Rtosc.C12.saved_line_scans_back",
+    "Rtosc.C12.saved_line_roundtrip",
+    "Rtosc.C12.saved_lines_textOK",
+    "Rtosc.C12.valTextOK_by_kind",
+    "Rtosc.C12.load_text_of_save_text",
+    "Rtosc.C12.load_save_restores_text_partial",
+    "Rtosc.C12.load_save_restores_text_ports",
+    "Rtosc.C12.untouched_text_is_header",
+    "Rtosc.C12.posinf_text_counterexample",
 ]
 VERIF = os.path.dirname(os.path.dirname(os.path.dirname(os.path.abspath(__file__))))
 # the application pool is fixed (seeded by constants): regenerate the C++ when the generator changes
@@ -82,6 +92,10 @@ ASSUMPTIONS = [
     "`/arr01` or an index that wraps, the model's address lookup does not (never generated, never written by save_to_file)",
     "header damage means a wrong token; what sscanf forgives (any amount of white space, also none, between the tokens; "
     "text behind the last conversion of the second line, which is then read as the first message) is not 'a wrong header'",
+    "text level: the application name is a word of at most 127 one-byte characters without white space (what `%127s` reads "
+    "back; NameTextOK); port addresses start with '/', consist of one-byte characters without white space and are shorter than "
+    "8190 characters (AddrTextOK; the port name buffer of dispatch_printed_messages has 8192); the printer's 8192-byte buffer "
+    "is large enough (C10's printer model has no buffer bound: rString capacities of the pool stay far below)",
     "prerequisite fixes of other properties applied: fixes/C10-02 (the scanner took \"-16 -68\" for a date), "
     "fixes/C10-14 (a char parameter holding NUL was printed as a raw NUL); found through C12's generators",
 ]
@@ -90,8 +104,16 @@ TRUSTED = ["hand-written abstract model RtoscModel/Save/{App,Deps,Load,Save}.lea
            "RtoscModel/Save/Apropos.lean (Ports::apropos and port_of_path on generated names; not covered by theorems)",
            "the generated applications harness/save_apps.inc and their descriptor (tools/props/saveapps.py); the dependency "
            "metadata of the descriptor is compared with the compiled port tables on every run (op `meta`)",
-           "text stages (pretty printer / scanner, C10/C11), message encoding (C01), dispatch (C04), callbacks (C14), "
-           "argument comparison (C16) enter only through the correspondence"]
+           "text stages: RtoscModel/Save/Text.lean composes C10's models of rtosc_print_message (default print options, as "
+           "get_changed_values calls rtosc_print_arg_vals), rtosc_count_printed_arg_vals_of_msg and rtosc_scan_message, and C16's "
+           "model of rtosc_arg_val_itr, into save_to_file / load_from_file on file text; the two header sscanf calls are "
+           "transcribed by hand there (a sign in front of a version number is not modelled). This composition is NOT part of "
+           "the compiled driver (drv_save compares abstract lines, its output is unchanged); it is compared, outside the "
+           "check (tools/props/c12_textcheck.py, lean/Driver/SaveTextCheck.lean), with the text the compiled library writes: "
+           "600 generated states of the fourteen applications, every file byte-identical, and the Lean load_from_file restored "
+           "597 of them - the other three hold +infinity (C12-K9)",
+           "message encoding (C01), dispatch (C04), callbacks (C14), argument comparison (C16) enter only through the "
+           "correspondence"]
 LEVEL_TEXT = ("Lean theorems over the abstract application model, for every application satisfying App.WF (any acyclic, "
               "transitively closed dependency order - independent ports may share dependants; array elements with constant or "
               "preset-dependent defaults; see assumptions), App.MetaCovers and MetaRanked, and every reachable state: "
@@ -100,10 +122,29 @@ LEVEL_TEXT = ("Lean theorems over the abstract application model, for every appl
               "rejected; the hypotheses are evaluated (as Bools) for each generated application on every run and hold for all "
               "fourteen (hypotheses_cover_shared_dependants_and_preset_arrays: a concrete application with a shared dependant "
               "and a preset-dependent array satisfies them); all fourteen are compared, model against compiled implementation "
-              "built from the real macros, and the property is evaluated directly on the implementation's output")
-LEVEL_NOTE = ("partial: the theorems are about abstract lines (each text/encoding stage is tied by correspondence only; "
-              "load_save_restores_scanned_partial / posinf_not_restored_counterexample state what the text stages of the "
-              "unchanged library lose: +infinity, C12-K9); several theorems (load_counts_lines, rejects_*, saved_iff_differs) "
+              "built from the real macros, and the property is evaluated directly on the implementation's output. "
+              "Text level (Props/C12Text.lean, with C10's printer/checker/scanner theorems as lemmas): for every state whose "
+              "saved lines are covered (LineTextOK), load_from_file applied to the TEXT save_to_file returns - header lines, "
+              "then per message rtosc_count_printed_arg_vals_of_msg / rtosc_scan_message inside the file, i.e. behind the "
+              "header's newline and in front of the next message - is App.loadFile on the abstract file "
+              "(load_text_of_save_text), hence restores the state and counts the lines (load_save_restores_text_partial); "
+              "a covered line read back at any position of a file gives its address and values (saved_line_scans_back). "
+              "Covered: scalar ports of every kind - rParamI (every int32), rParam char (NUL, 7..13, 32..126), rParamF "
+              "(every finite float, lossless spelling), rToggle, rOption (symbols of printable characters, or ints), rString "
+              "(printable bytes and C escapes: quotes, backslashes, '%', tabs, newlines with continuation lines) - and array "
+              "lines without five consecutive elements of one type tag (up to four printed elements of int/char/float/option/"
+              "string arrays; toggle arrays of any length without five equal neighbours)")
+LEVEL_NOTE = ("partial: the theorems about presence, rejection and ordering are about abstract lines; the text level "
+              "(load_save_restores_text_partial) is proved for the value classes listed above and is open for: array lines "
+              "with five or more consecutive elements of one type (the printer compresses runs `[5x7]`, `[1 ... 6]`; C10 has "
+              "no theorem for runs inside arrays - the Lean text model expands them with C16's iterator and agreed with the "
+              "library on every generated file, but that is evidence, not proof), chars 1..6/14..31/127, string and symbol "
+              "bytes outside 7..13/32..126, -infinity and NaN; +infinity is refuted (posinf_text_counterexample: the text "
+              "model prints `/f inf (inf)` and load_from_file on it returns a negative result - C12-K9, also "
+              "load_save_restores_scanned_partial / posinf_not_restored_counterexample at the abstract level); the header "
+              "sscanf transcription and the composition itself (RtoscModel/Save/Text.lean) are not run by the compiled driver: "
+              "they are tied to the code by C10's correspondence for the three functions they call and by a one-off comparison "
+              "of file texts; message encoding, dispatch and callbacks are tied by correspondence only; several theorems (load_counts_lines, rejects_*, saved_iff_differs) "
               "restate the model's own definitions - 'default' and 'wrong header' have no specification independent of the "
               "model; the application's reaction to a change (re-applying the defaults of all dependants in dependency order, "
               "App.setParam) is the modelled precondition, tied to the generated applications by correspondence; the Bool "
